@@ -538,6 +538,87 @@ def draggable_agree(ctx):
                           fni, points=enc_pts, idxs=ii[1])
 
 
+# --------------------------------------------------------------------------- positions of the draggable points
+@rule("C20.drag-positions", props=["C20"], min_instances=4, mutants=[
+    ("indices count the multivectors only", ("graph", "        return [j for j, s in enumerate(self.pre_subjects) if isinstance(s, MultiVector)]", "        return [j for j, s in enumerate(s_ for s_ in self.pre_subjects if isinstance(s_, MultiVector))]")),
+    ("PGA indices are shifted by one", ("graph", "            return [j for j, s in enumerate(self.pre_subjects)\n                    if isinstance(s, MultiVector) and s.grades == (d - 1,)]", "            return [j + 1 for j, s in enumerate(self.pre_subjects)\n                    if isinstance(s, MultiVector) and s.grades == (d - 1,)]")),
+])
+def drag_positions(ctx):
+    """ECHO INVARIANCE.  On every frame graph.js reports `draggable_points_idxs.map(i => canvas.value[i])`, where canvas.value is
+    the decoded `subjects` list - whether or not anything was moved - and the observer writes report k into the subject that
+    belongs to index k.  So a report that merely echoes what the front end was sent must leave every subject as it is: the
+    positions sent to the front end have to be positions in the list the front end indexes (the WALKED subjects, in which an
+    array-valued multivector at the root is spliced in element by element), and each must hold the encoding of the very
+    multivector the observer writes to.  encode, walker, get_draggable_points_idxs and the observer are all run from source."""
+    repo = ctx.repo
+    qi, qo = "graph.GraphWidget.get_draggable_points_idxs", "graph.GraphWidget._observe_draggable_points"
+    fni, fno = ctx.func(qi), ctx.func(qo)
+
+    def arr(name, n):
+        o = Obj("ndarray-element", {"fmt": name, "shape": (n,)})
+        o.getitem = lambda idx: Val(f"{name}[{idx!r}]")
+        return o
+
+    def cells():
+        for r, label_alg in ((1, "2D PGA"), (0, "R3")):
+            alg = rep_algebra(3, r=r)
+            c2b = alg.attrs["canon2bin"]
+            by_grade = lambda g, c2b=c2b: tuple(b for n, b in c2b.items() if len(n) - 1 == g)
+            pts, lines = by_grade(2), by_grade(1)
+            mk = lambda keys, nm: mv_obj(alg, keys, [Val(f"{nm}{i}") for i in range(len(keys))])
+            cloud_lines = mv_obj(alg, lines, [arr(f"CL{i}", 3) for i in range(len(lines))])
+            cloud_points = mv_obj(alg, pts, [arr(f"CP{i}", 3) for i in range(len(pts))])
+            lam = Closure(ast.parse("lambda: CLOUD", mode="eval").body, {"CLOUD": cloud_points}, "graph")
+            yield alg, f"{label_alg}: no array-valued subject", [0xFF, mk(lines, "L"), mk(pts, "P"), [mk(pts, "N")], mk(pts, "Q")]
+            yield alg, f"{label_alg}: a callable returning an array-valued multivector before the points", [0xFF, lam, mk(pts, "P"), mk(pts, "Q")]
+            if r == 1:
+                yield alg, f"{label_alg}: an array-valued multivector (not of point grade) before the points", [0xFF, cloud_lines, mk(pts, "P"), mk(pts, "Q")]
+
+    for alg, label, S in cells():
+        c = f"graph.GraphWidget#echo:{label}"
+        canon = canonical_keys(alg)
+        key2idx_ = {k: i for i, k in enumerate(canon)}
+        before = {id(s): [val_repr(v) for v in s.attrs["_values"]] for s in S
+                  if isinstance(s, Obj) and s.kind == "MultiVector" and all(not (isinstance(v, Obj) and v.kind == "ndarray-element") for v in s.attrs["_values"])}
+        try:
+            ii = make_interp(repo).run(qi, [widget(alg, pre_subjects=S)])
+            E = encode_walk(repo, S)
+        except NoValue as exc:
+            raise Unknown(c, str(exc), fni)
+        if ii[0] != "return" or not isinstance(ii[1], list) or E[0] != "return" or not isinstance(E[1], list):
+            raise Unknown(c, f"unrecognised results {ii!r} / {E!r}", fni)
+        idxs, shown = ii[1], E[1]
+        report, bad = [], None
+        for i in idxs:
+            item = shown[i] if isinstance(i, int) and 0 <= i < len(shown) else None
+            full = js_decode(item, alg) if isinstance(item, dict) else None
+            if full is None:
+                bad = f"index {i} of draggable_points_idxs {idxs} is {'outside' if item is None else 'no multivector in'} the list the front end indexes " \
+                      f"({len(shown)} walked subjects)"
+                break
+            report.append({"mv": [Val(full[k]) if isinstance(full[k], str) else full[k] for k in canon]})
+        if bad:
+            ctx.violation(c, bad + ": the front end reports something that is not the point", fni)
+            continue
+        w = widget(alg, key2idx=key2idx_, pre_subjects=S, raw_subjects=S, draggable_points_idxs=idxs, subjects="STALE")
+        try:
+            out = make_interp(repo).run(qo, [w, {"new": report}])
+        except NoValue as exc:
+            raise Unknown(c, str(exc), fno)
+        if out[0] == "raise":
+            ctx.violation(c, f"the observer raises {out[1]} on a report that echoes the subjects", fno)
+            continue
+        changed = [(j, before[id(s)], [val_repr(v) for v in s.attrs["_values"]]) for j, s in enumerate(S)
+                   if id(s) in before and [val_repr(v) for v in s.attrs["_values"]] != before[id(s)]]
+        if changed:
+            j, was, now = changed[0]
+            ctx.violation(c, f"nothing was moved (the report echoes positions {idxs} of the walked subjects), yet subject {j} changes from {was} to {now}: "
+                             f"draggable_points_idxs are positions in the unexpanded argument list, the front end indexes the list in which an "
+                             f"array-valued multivector is spliced in element by element - every report overwrites the points with other subjects", fni)
+        else:
+            ctx.ok(c, fni, idxs=idxs, shown=len(shown))
+
+
 # --------------------------------------------------------------------------- writeback
 def check_writeback(ctx, repo):
     q = "graph.GraphWidget.inplacereplace"
